@@ -208,6 +208,9 @@ def hooked_open(file, mode='r', buffering=-1, encoding=None, errors=None, newlin
     except FileExistsError:
         run.log(w, 'open', 'exists', i=idx)
         raise
+    except FileNotFoundError:
+        run.log(w, 'open', 'noent', i=idx)      # the directory is not there (yet): nothing was created
+        raise
     run.log(w, 'open', 'ok', i=idx)
     if buffering < 0:
         buffering = getattr(raw, '_blksize', io.DEFAULT_BUFFER_SIZE)
@@ -407,25 +410,29 @@ class Run:
                 return self.inject[1]
             self.count += 1
             return 'go'
-        while self.ptr < len(self.path) and (self.path[self.ptr]['w'] in self.finished
-                                             or self.path[self.ptr]['w'] in self.parked):
-            self.ptr += 1
-        if self.ptr >= len(self.path):
-            return 'go'
-        e = self.path[self.ptr]
-        # steps of the schedule that do not happen in this run - a raw write the io stack does not repeat,
-        # an attempt at a temp name that was not needed because no file was in the way - are dropped, so
-        # that the rest of the schedule stays aligned with the writer's boundaries
+        # A schedule step means: let that writer perform its next file-system operation.  Steps of the
+        # schedule that do not happen in this run (a mkdir the writer does not need, an attempt at a name
+        # that is not taken, a raw write the io stack does not repeat) are dropped, operations of this run
+        # the schedule does not have are let through without using a step up.
         def optional(ev):
-            return (ev['op'] == 'write' and ev['res'] == 'ok') or (ev['op'] == 'open' and ev['res'] in ('ok', 'exists'))
-        while e['w'] == w and optional(e) and e['op'] != op and self.ptr + 1 < len(self.path):
-            self.ptr += 1
+            return ((ev['op'] == 'write' and ev['res'] == 'ok') or (ev['op'] == 'open' and ev['res'] in ('ok', 'exists'))
+                    or (ev['op'] == 'mkdir' and ev['res'] in ('ok', 'exists')))
+        while True:
+            while self.ptr < len(self.path) and (self.path[self.ptr]['w'] in self.finished
+                                                 or self.path[self.ptr]['w'] in self.parked):
+                self.ptr += 1
+            if self.ptr >= len(self.path):
+                return 'go'
             e = self.path[self.ptr]
+            if e['w'] == w and optional(e) and e['op'] != op:
+                self.ptr += 1
+                continue
+            break
         if e['w'] != w:
-            # the scheduled writer must be on its way to a boundary, otherwise nobody could move
+            # the scheduled writer is on its way to a boundary (or will finish): wait for it
             return None
-        if e['op'] != op and op in ('write', 'bcall', 'open') and e['op'] != 'crash':
-            return 'go'         # an extra step of this run: do not consume the schedule
+        if e['op'] != op and op in ('write', 'bcall', 'open', 'mkdir') and e['op'] != 'crash':
+            return 'go'         # an extra operation of this run: do not consume the schedule
         self.ptr += 1
         if e['op'] == 'crash':
             return 'crash'
